@@ -201,7 +201,17 @@ class Prov:
             res = None
             if okay and per:
                 res = tuple(sorted((v, next(iter(ps))) for v, ps in per.items() if len(ps) == 1))
-                res = res + tuple(("?" + v, ("unit",)) for v, ps in sorted(per.items()) if len(ps) != 1)
+                for v, ps in sorted(per.items()):
+                    if len(ps) == 1:
+                        continue
+                    nested = nested_sum(ps, l, v)
+                    if nested is not None:
+                        # Ok(None) on one path, Ok(Some(x)) on another: the payload of Ok is itself a value of known
+                        # variants (a spliced helper returning Result<Option<T>>)
+                        res = res + ((v, nested),)
+                    else:
+                        res = res + (("?" + v, ("unit",)),)
+                res = tuple(sorted(res))
         finally:
             self._sum_busy.discard(l)
         self._sum_memo[l] = res
@@ -290,6 +300,15 @@ class Prov:
                 if rec is not None and isinstance(rec.get("fields"), list):
                     # a named tuple constant, e.g. `const NO_CACHING: (&str, &str) = (..)`: the tuple of its field values
                     return ("agg", "tuple", tuple((str(i), ("const", None, f.get("val"), f.get("ty", "?"))) for i, f in enumerate(rec["fields"])))
+            if v is None and d is not None and d in self.body.prog.bodies and d != self.body.deff:
+                # a named array / tuple constant whose initialiser is a literal aggregate of constants
+                # (`const SQL_CREATE_SCHEMA: [&str; 3] = [..]`): the aggregate of its element values
+                cb = self.body.prog.bodies[d]
+                if cb.kind.startswith(("Const", "AssocConst")) and len(cb.blocks) == 1 and cb.blocks[0]["term"]["k"] == "return":
+                    st = [x for x in cb.blocks[0]["stmts"] if x["k"] == "assign"]
+                    if len(st) == 1 and st[0]["p"]["l"] == 0 and not st[0]["p"]["proj"] and st[0]["rv"]["k"] == "aggregate" \
+                            and st[0]["rv"]["ak"] in ("array", "tuple") and all(o["k"] == "const" and "val" in o for o in st[0]["rv"]["ops"]):
+                        return ("agg", st[0]["rv"]["ak"], tuple((str(i), ("const", None, o["val"], o["ty"])) for i, o in enumerate(st[0]["rv"]["ops"])))
             if d is not None and v is None:
                 v = self.body.prog.const_value(d)
             if isinstance(v, list):
@@ -311,6 +330,13 @@ class Prov:
                 t = ("upvar", pr[j]["i"], body.upvar_names.get(pr[j]["i"], "upvar%d" % pr[j]["i"]))
                 return self.apply_proj(t, pr[j + 1:])
         t = self.local_term(l)
+        if body.locals[l]["ty"].startswith("core::result::Result<core::convert::Infallible,"):
+            # the residual of `?` is Err(e) by construction and is written err(X) like the error e itself: its Err payload
+            # is that same term (a `?` written out as Err(From::from(e)) by the shape normaliser reads it this way)
+            pr = [e for e in proj if e["k"] != "deref"]
+            if len(pr) >= 2 and pr[0]["k"] == "downcast" and pr[0]["name"] == "Err" and pr[1]["k"] == "field" and pr[1].get("name") == "0" \
+                    and not (t[0] == "agg" and isinstance(t[1], tuple) and t[1][0] == "adt" and t[1][1] == "core::result::Result"):
+                return self.apply_proj(t, pr[2:])
         return self.apply_proj(t, proj)
 
     def apply_proj(self, t, proj):
@@ -319,6 +345,15 @@ class Prov:
             if k == "deref":
                 continue
             if k == "field":
+                if t[0] == "const" and t[1] is not None and t[2] is None:
+                    # the only field of a scalar newtype constant (`const MAX_SIZE: BodyLimit = BodyLimit::mebibytes(100)`):
+                    # the evaluated constant has the field's value
+                    rec = self.body.prog.consts.get(t[1]) or {}
+                    adt = self.body.prog.adt(t[3]) if isinstance(t[3], str) and "::" in t[3] else None
+                    if isinstance(rec.get("bits"), int) and adt is not None and adt.get("kind") == "Struct" \
+                            and len(adt["variants"]) == 1 and len(adt["variants"][0]["fields"]) == 1:
+                        t = ("const", t[1], rec["bits"], adt["variants"][0]["fields"][0]["ty"])
+                        continue
                 t = mk_field(t, e["name"])
             elif k == "downcast":
                 t = mk_variant(t, e["name"], e.get("adt"))
@@ -451,11 +486,31 @@ def mk_field(t, name):
     return ("field", t, name)
 
 
+def nested_sum(payloads, l, v):
+    """Several literal Option/Result values of one type as a single term ("sum", ((variant, payload), ...), l, v) -- the
+    payload of variant v of the multi-def local l; None when some payload is not a literal or a variant carries different
+    payloads."""
+    per = {}
+    adts = set()
+    for p in payloads:
+        if not (p[0] == "agg" and isinstance(p[1], tuple) and p[1][0] == "adt" and p[1][1] in STD_SUM_TYPES and len(p[2]) <= 1):
+            return None
+        adts.add(p[1][1])
+        per.setdefault(p[1][2], set()).add(p[2][0][1] if p[2] else ("unit",))
+    if len(adts) != 1 or any(len(ps) != 1 for ps in per.values()):
+        return None
+    return ("sum", tuple(sorted((v_, next(iter(ps))) for v_, ps in per.items())), l, v)
+
+
 def phi_payload(t, variants):
     """Payload of the given variant family of a sum-structured multi-def local (see Prov.sum_summary)."""
     if t[0] == "phi" and len(t) == 4:
         hits = [pl for v, pl in t[3] if v in variants]
         if len(hits) == 1 and not any(v.startswith("?") and v[1:] in variants for v, _ in t[3]):
+            return hits[0]
+    if t[0] == "sum":
+        hits = [pl for v, pl in t[1] if v in variants]
+        if len(hits) == 1:
             return hits[0]
     return None
 
@@ -548,6 +603,8 @@ def walk_deep(t):
             if y[0] == "phi" and len(y) == 4 and y[1] not in seen:
                 seen.add(y[1])
                 st.extend(pl for _, pl in y[3])
+            if y[0] == "sum":
+                st.extend(pl for _, pl in y[1])
 
 
 def call_sites(t):
@@ -555,7 +612,7 @@ def call_sites(t):
 
 
 def phi_locals(t):
-    return set(x[1] for x in walk(t) if x[0] == "phi")
+    return set(x[1] for x in walk(t) if x[0] == "phi") | set(x[2] for x in walk(t) if x[0] == "sum")
 
 
 def calls_in(t, callee=None):
@@ -607,6 +664,8 @@ def show(t, depth=0):
         return "discr(%s)" % show(t[1], d)
     if h == "phi":
         return "Var(%s)" % t[2]
+    if h == "sum":
+        return "OneOf{%s}" % ", ".join("%s: %s" % (v, show(pl, depth + 1)) for v, pl in t[1])
     if h == "mut":
         return "Mut(%s := %s)" % (t[2], show(t[3], d))
     if h == "index":
